@@ -1,6 +1,7 @@
 package main
 
 import (
+	"go/ast"
 	"fmt"
 	"go/types"
 	"sort"
@@ -127,6 +128,64 @@ func c05Shadow(c *Ctx, ct collapsingType) {
 			sliceFields = append(sliceFields, f.Name())
 		}
 	}
+	// which methods of the embedded type can run with the embedded receiver of a collapsing store at all:
+	// the exported promoted ones (callable by users and through the Store interface), and — transitively —
+	// those called from them or from the collapsing type's own methods. An unexported helper that is only
+	// called from a method the collapsing type re-declares (e.g. a part split off DenseStore.MergeWith)
+	// never runs on a collapsing store.
+	innerMethods := map[string]*ssa.Function{}
+	for i := 0; i < ct.inner.NumMethods(); i++ {
+		if f := c.P.SSA.FuncValue(ct.inner.Method(i)); f != nil {
+			innerMethods[f.Name()] = f
+		}
+	}
+	calleesOnInner := func(f *ssa.Function) []*ssa.Function {
+		var out []*ssa.Function
+		var visit func(g *ssa.Function)
+		visit = func(g *ssa.Function) {
+			for _, b := range g.Blocks {
+				for _, in := range b.Instrs {
+					if ci, ok := in.(ssa.CallInstruction); ok {
+						if cal, ok := ci.Common().Value.(*ssa.Function); ok && recvNamed(cal) == ct.inner {
+							out = append(out, cal)
+						}
+					}
+				}
+			}
+			for _, an := range g.AnonFuncs {
+				visit(an)
+			}
+		}
+		visit(f)
+		return out
+	}
+	live := map[*ssa.Function]bool{}
+	var work []*ssa.Function
+	mark := func(f *ssa.Function) {
+		if f != nil && !live[f] {
+			live[f] = true
+			work = append(work, f)
+		}
+	}
+	for n, f := range innerMethods {
+		if ast.IsExported(n) && !redecl[n] {
+			mark(f)
+		}
+	}
+	for i := 0; i < ct.t.NumMethods(); i++ {
+		if m := c.P.SSA.FuncValue(ct.t.Method(i)); m != nil {
+			for _, cal := range calleesOnInner(m) {
+				mark(cal)
+			}
+		}
+	}
+	for len(work) > 0 {
+		f := work[len(work)-1]
+		work = work[:len(work)-1]
+		for _, cal := range calleesOnInner(f) {
+			mark(cal)
+		}
+	}
 	for i := 0; i < ms.Len(); i++ {
 		sel := ms.At(i)
 		name := sel.Obj().Name()
@@ -146,6 +205,10 @@ func c05Shadow(c *Ctx, ct collapsingType) {
 		}
 		nPromoted++
 		key := fmt.Sprintf("%s/promoted/%s", tname, name)
+		if !live[target] {
+			c.R.trivial(rule, key, funcName(target), c.fpos(target), "unexported and called only from methods the collapsing type re-declares: never runs on a collapsing store", "not reachable with a collapsing receiver")
+			continue
+		}
 		// closure under static calls whose receiver is the embedded type
 		seen := map[*ssa.Function]bool{}
 		var reachedBad []string
